@@ -7,7 +7,7 @@ ID = "C09"
 DRIVER = "drv_regp"
 HARNESS = "h_regp"
 RULE = ("both transports x {8,16}-bit memory x allocator block sizes F+1, F+2, F+11..F+17, 100, 128, 200: frames (requests, responses, meta, garbage) of "
-        "every length B-F-3 .. B-F+3 and 0..20; every read block size around the transmit limit; allocation failure at every allocation of a "
+        "every length B-F-3 .. B-F+3 and 0..20; every read block size around the transmit limit; block-size fields at 2^31, 2^32-1, 2^16.. against payloads of 0..3 atoms; allocation failure at every allocation of a "
         "session (scripts f, sf, ssf, fsfs ...); a source error at every position of a frame and a stream ending at every position, followed by "
         "a good frame; length prefixes that promise more than the stream holds, over-long varints; empty frames; reply sink running full at every "
         "octet; random and mutated-valid octet streams (quick 200, thorough 3000 per transport); release called twice.  The harness allocator hands "
@@ -129,6 +129,22 @@ def cases(tier, seed):
                         R.frame(R.RREQ, R.transport_opts(serial, 0, []), 0, 1, 2, 3, hdcrc=0x4321)):
                 ops += ["rp.sink %d epipe" % room] + feed(serial, raw) + rpf() + ["rp.sink inf enomem"]
         cs.append(Case("sinkfull-%s" % ep, ops, ("sink-full", ep)))
+    # block-size fields near the 32-bit limits against short payloads (arithmetic on sizes must not wrap)
+    for ep in ("serial", "tcp"):
+        serial = ep == "serial"
+        for mem in (8, 16):
+            unit = mem // 8
+            ops = [R.cfg(mem, ep, 256), "rp.backend 0 0 1"]
+            for k in (0, 1, 2, 3):
+                for size in (2 ** 31 + k, 2 ** 31, 2 ** 32 - 1, 2 ** 32 - 2 + k, 2 ** 31 - 1, 2 ** 16 + k, 2 ** 24 + k, (2 ** 32 + k * unit) // 2):
+                    size &= 0xffffffff
+                    for ws in (mem == 16, mem != 16):
+                        u = 2 if ws else 1
+                        pl = R.rbytes(rnd, k * u)
+                        ops += feed(serial, R.request(serial, True, ws, 3, 4, size, pl)) + rpf()
+                        ops += feed(serial, R.frame(R.RRESP, R.transport_opts(serial, R.WS16 if ws else 0, pl), 0, 3, 4, size, pl)) + rpf()
+                    ops += feed(serial, R.request(serial, False, mem == 16, 3, 4, size)) + rpf()
+            cs.append(Case("hugesize-%s-%d" % (ep, mem), ops, ("huge-size", ep)))
     # empty frames, release twice, odd prefixes
     ops = [R.cfg(16, "serial", 128), "rp.src c0", "rp.recv", "rp.process", "rp.free", "rp.free", "rp.src c0c0c0", "rp.recv", "rp.free", "rp.recv", "rp.free",
            "rp.recv", "rp.free", "rp.recv", "rp.free", "rp.src dbc0 db01c0 dbdcc0"] + rpf() + rpf() + rpf() + rpf()
